@@ -88,6 +88,38 @@ def elitism_case(find, values, dup, minimize, k, form, pre_evaluated):
     return True
 
 
+def parallel_slot_case(find, values, minimize, target, weights):
+    """One generation step: ParallelStep([ElitismStep, NoveltyStep], weights) asked for `target` individuals out of a LARGER
+    population; whenever the elitism slice has positive size the output must contain an individual at least as good as every
+    member of the input."""
+    from geneticengine.algorithms.gp.operators.combinators import ParallelStep
+    from geneticengine.algorithms.gp.operators.novelty import NoveltyStep
+
+    rep = IntRep()
+    ff = TableFitness(list(values) + [0] * 40)
+    problem = SingleObjectiveProblem(ff, minimize)
+    tracker = single_tracker(problem)
+    inds = [Individual(rep.create_genotype(None), rep) for _ in values]
+    step = ParallelStep([ElitismStep(), NoveltyStep()], weights=list(weights))
+    desc = f"ParallelStep([ElitismStep, NoveltyStep], weights={list(weights)}).apply on values={list(values)}, minimize={minimize}, target_size={target}"
+    try:
+        ranges = step.compute_ranges(inds, target)
+        out = list(step.apply(problem, tracker.evaluator, rep, NativeRandomSource(0), list(inds), target, 1))
+        tracker.evaluator.evaluate(problem, out)
+    except Exception as ex:  # noqa
+        find.add("rt:C16:ParallelStep.exception", f"{desc} raised {type(ex).__name__}: {str(ex)[:80]}", (len(values), target))
+        return False
+    if ranges[0][1] - ranges[0][0] <= 0:
+        return True
+    best_in = min(values) if minimize else max(values)
+    got = [ff.value(o.get_phenotype()) for o in out]
+    best_out = min(got) if minimize else max(got)
+    if better(best_in, best_out, minimize):
+        find.add("rt:C16:ParallelStep.elitism_slot_lost_the_best", f"{desc}: the elitism slice has {ranges[0][1] - ranges[0][0]} slot(s) but the best of the new population is {best_out} while {best_in} was in the old one", (len(values), target))
+        return False
+    return True
+
+
 def gp_case(find, label, spec, pop, minimize, rng, seed):
     rep = IntRep(cap=50000)
     table = [rng.randint(0, 9) for _ in range(101)]
@@ -178,6 +210,15 @@ def run(tier: str, seed: int) -> dict:
                     evaluations += 1
                     if len(set(values)) > 1 and k < n:
                         nontrivial += 1
+    # 1c. one generation step with a reserved elitism slot, asked for fewer individuals than the population holds
+    for values in ((0, 1, 2, 3, 9), (9, 0, 1, 2), (1, 1, 5, 1, 1, 1), (3, 2, 7)):
+        for perm in itertools.islice(itertools.permutations(values), 12):
+            for minimize in (False, True):
+                for target in range(1, len(values)):
+                    for weights in ((1, 1), (1, 3), (3, 1)):
+                        ok = parallel_slot_case(find, perm, minimize, target, weights)
+                        evaluations += 1
+                        nontrivial += 1
     n_elitism = evaluations
 
     # 2. GP runs, 10 generations, best fitness per generation
@@ -209,7 +250,7 @@ def run(tier: str, seed: int) -> dict:
                     if len(samples) < 8 and c > 0 and runs % 37 == 1:
                         samples.append(f"GP {label} pop={pop} minimize={minimize}: {c} generation transitions with a reserved elitism slot checked")
     rule = (
-        f"ElitismStep: all populations over {{0,1,2}}^n, n 1..{max_n}, optionally with one individual presented twice, and all populations over {{-inf,-1.5,0,2,+inf}}^n, n 1..3, that contain an infinite value, both directions, k 1..|pop|, "
+        f"ElitismStep: all populations over {{0,1,2}}^n, n 1..{max_n}, optionally with one individual presented twice, and all populations over {{-inf,-1.5,0,2,+inf}}^n, n 1..3, that contain an infinite value, both directions, k 1..|pop|; one generation step ParallelStep([Elitism, Novelty]) asked for fewer individuals than the population holds (4 value sets x 12 orders x 3 weightings x every target), "
         "as list and as Population (pre-evaluated or not): exactly k members (multiset), no excluded individual strictly better than an included one "
         "(raw table values compared in the declared direction).  GP: 7 step compositions with a top-level ParallelStep containing an ElitismStep x "
         "population_size 2..12, 20, 30 x both directions x 10 generations on a random table landscape; for every generation in which the ElitismStep "
